@@ -183,6 +183,8 @@ class pointwise_aggregates {
             // Update aggregate count and aggregate ids.
             aggr.count = m;
 
+            if (!aggr.count) throw error::empty_level();
+
             for(size_t i = 0; i < n; ++i) {
                 ptrdiff_t id = aggr.id[i];
                 if (id != removed) aggr.id[i] = count[id];
